@@ -63,6 +63,21 @@ def leaf(cls, ishape, oshape_, **p):
     return {"k": "leaf", "cls": cls, "ishape": list(ishape), "p": p}, (list(oshape_) if oshape_ is not None else None)
 
 
+def _axes_form(rng, axes, nd):
+    """An equivalent spelling of an explicit axes argument: negative indices, a tuple instead of
+    a list (the documented type is "tuple or list").  Returns keyword items for leaf()."""
+    if axes is None:
+        return {"axes": None}
+    r = rng.random()
+    if r < 0.25:
+        return {"axes": [a - nd for a in axes]}
+    if r < 0.35:
+        return {"axes": list(axes), "axes_tuple": True}
+    if r < 0.45:
+        return {"axes": [a - nd for a in axes], "axes_tuple": True}
+    return {"axes": axes}
+
+
 def gen_leaf(rng, ishape, preserve=False, allow_unknown=True):
     """A leaf operator accepting `ishape`; returns (spec, oshape|None)."""
     nd = len(ishape)
@@ -105,11 +120,11 @@ def gen_leaf(rng, ishape, preserve=False, allow_unknown=True):
     if cls == "Circshift":
         k = rng.randint(1, nd)
         axes = sorted(rng.sample(axes_all, k))
-        return leaf("Circshift", ishape, ishape, shift=[rng.randint(-3, 3) for _ in axes], axes=axes)
+        return leaf("Circshift", ishape, ishape, shift=[rng.randint(-3, 3) for _ in axes], **_axes_form(rng, axes, nd))
     if cls == "Flip":
         k = rng.randint(1, nd)
         axes = rng.choice([None, sorted(rng.sample(axes_all, k))])
-        return leaf("Flip", ishape, ishape, axes=axes)
+        return leaf("Flip", ishape, ishape, **_axes_form(rng, axes, nd))
     if cls == "ResizeSame":
         return leaf("Resize", ishape, ishape, oshape=list(ishape))
     if cls == "MatMulSquare":
@@ -182,7 +197,7 @@ def gen_leaf(rng, ishape, preserve=False, allow_unknown=True):
         k = rng.randint(1, nd)
         axes = rng.choice([None, sorted(rng.sample(axes_all, k))])
         na = nd if axes is None else len(axes)
-        return leaf("FiniteDifference", ishape, [na] + list(ishape), axes=axes)
+        return leaf("FiniteDifference", ishape, [na] + list(ishape), **_axes_form(rng, axes, nd))
     if cls == "ArrayToBlocks":
         D = rng.randint(1, min(nd, 3))
         bs, st, nb = [], [], []
@@ -214,7 +229,7 @@ def gen_leaf(rng, ishape, preserve=False, allow_unknown=True):
     if cls == "Wavelet":
         k = rng.randint(1, nd)
         axes = rng.choice([None, sorted(rng.sample(axes_all, k))])
-        return leaf("Wavelet", ishape, None, axes=axes, wave_name=rng.choice(["db4", "haar", "db2", "sym3"]),
+        return leaf("Wavelet", ishape, None, **_axes_form(rng, axes, nd), wave_name=rng.choice(["db4", "haar", "db2", "sym3"]),
                     level=rng.choice([None, 1, 2]))
     if cls in ("ConvolveData", "ConvolveFilter"):
         mc = rng.random() < 0.4 and nd >= 2
